@@ -517,6 +517,83 @@ func (r *runner) multiplexFamily() {
 			}
 		}
 	}
+	// one server, several requests: every ordered pair (and the triples that repeat the
+	// first request) from a menu of requests that differ in name length, framing, seqid,
+	// body and outcome. Every reply is kept while the later requests are handled and must
+	// still be the bytes it was when it was returned (a pipelining caller holds several
+	// replies at once), and each reply echoes its own request.
+	{
+		type req struct {
+			name    string
+			framing string
+			seq     int32
+			body    tbin.Value
+		}
+		var menu []req
+		for _, name := range []string{"Svc:ping", "Svc:a-much-longer-method-name-than-the-other-one", "Unknown:ping", "Strict:boom"} {
+			for _, framing := range []string{tbin.FramingStrict, tbin.FramingLegacy} {
+				for bi, seq := range []int32{1, math.MinInt32} {
+					menu = append(menu, req{name, framing, seq, bodies[bi*2]})
+				}
+			}
+		}
+		encode := func(q req) []byte {
+			env := tbin.Envelope{Name: []byte(q.name), Type: 1, SeqID: q.seq}
+			if q.framing == tbin.FramingStrict {
+				return tbin.EncodeStrict(env, tbin.Encode(q.body))
+			}
+			return tbin.EncodeLegacy(env, tbin.Encode(q.body))
+		}
+		runSeq := func(seq []req) {
+			w.Eval(1)
+			w.Nontrivial(1)
+			w.Count("server_request_sequences", 1)
+			var seen []string
+			mux := verifhook.NewMultiplexHandler()
+			mux.Put("Svc", recHandler{svc: "Svc", seen: &seen})
+			mux.Put("Strict", recHandler{svc: "Strict", seen: &seen, strict: true})
+			srv := verifhook.NewEnvelopeServer(binary.Default, mux)
+			var descs []string
+			var replies, copies [][]byte
+			for _, q := range seq {
+				descs = append(descs, fmt.Sprintf("%s/%s/%d", q.name, q.framing, q.seq))
+				var out []byte
+				var err error
+				var pan interface{}
+				func() {
+					defer func() { pan = recover() }()
+					out, err = srv.Handle(encode(q))
+				}()
+				if pan != nil || err != nil {
+					w.Violation("server-sequence-error", fmt.Sprintf("requests %v: panic=%v err=%v", descs, pan, err), map[string]interface{}{"requests": descs})
+					return
+				}
+				replies = append(replies, out)
+				copies = append(copies, append([]byte{}, out...))
+			}
+			for i, q := range seq {
+				if !bytes.Equal(replies[i], copies[i]) {
+					w.Violation("server-reply-overwritten", fmt.Sprintf("requests %v on one server: reply #%d was %x when it was returned and is %x after the later requests were handled", descs, i, copies[i], replies[i]), map[string]interface{}{"requests": descs})
+					return
+				}
+				renv, _, _, derr := tbin.DecodeEnvelope(replies[i])
+				if derr != nil || string(renv.Name) != q.name || renv.SeqID != q.seq {
+					w.Violation("server-echo", fmt.Sprintf("requests %v on one server: reply #%d carries name %q seqid %d (err %v)", descs, i, renv.Name, renv.SeqID, derr), map[string]interface{}{"requests": descs})
+					return
+				}
+			}
+			w.Outcome("server-sequence-ok")
+		}
+		for _, a := range menu {
+			for _, b := range menu {
+				if w.Own() {
+					runSeq([]req{a, b})
+					runSeq([]req{a, b, a})
+					w.Done()
+				}
+			}
+		}
+	}
 	// clients: every chain of <=2 multiplexing clients over the envelope client, against the same server
 	for _, chain := range [][]string{{}, {"Svc"}, {"Outer", "Inner"}, {"Inner", "Outer"}, {"Unknown"}, {"Svc:ns"}, {""}} {
 		for _, method := range []string{"ping", "ns:ping", ":ping", "ping:", ""} {
@@ -670,11 +747,29 @@ func run(w *ev.W) {
 		}
 	}
 	r.multiplexFamily()
-	// the empty name: noted only
-	if w.Shard == 0 {
-		msg := tbin.EncodeLegacy(tbin.Envelope{Name: nil, Type: 1, SeqID: 1}, tbin.Encode(bodies[1]))
-		res := decodeRequest(msg, 1)
-		w.Note(fmt.Sprintf("empty-name legacy request (outside the property's 1..2^16 name domain): DecodeRequest ok=%v err=%q", res.ok, res.errs))
+	// the empty name is outside the property's 1..2^16 name domain for the structured
+	// expectations, but the messages that carry it are byte strings like any other: the two
+	// request APIs must classify them alike (and the streaming one accept whatever the
+	// random-access one accepts), whatever they decide
+	for _, framing := range []string{tbin.FramingStrict, tbin.FramingLegacy} {
+		for typ := 0; typ < 128; typ++ {
+			for _, seq := range seqids {
+				for _, body := range bodies {
+					for _, et := range []int8{1, 4} {
+						if w.Own() && !expired() {
+							e := tbin.Envelope{Name: nil, Type: int8(typ), SeqID: seq}
+							msg := tbin.EncodeLegacy(e, tbin.Encode(body))
+							if framing == tbin.FramingStrict {
+								msg = tbin.EncodeStrict(e, tbin.Encode(body))
+							}
+							w.Count("empty_name_messages", 1)
+							r.classify(msg, et)
+							w.Done()
+						}
+					}
+				}
+			}
+		}
 	}
 	nb := 5
 	if !w.Quick() {
